@@ -34,6 +34,7 @@ fn hint_ok(r: &J, missing: usize) -> bool {
 /// `frames`: the set of frames the buffer declares (one per occurrence of the storage-header pattern; a single one without resync)
 fn frame_ok(r: &J, frames: &J) -> bool {
     let v = r["v"].as_str().unwrap_or("");
+    if v == "misaligned" { return false; }     // a successful call whose remainder is not the input's suffix behind the reported count
     if !["msg", "filtered", "skipped", "invalid"].contains(&v) {
         return true;
     }
